@@ -52,11 +52,15 @@ pub fn exec(c: &[i64]) -> Vec<i64> {
     let sh2 = sh.clone();
     rt.block_on(async move {
         let mut runtime = Runtime::default();
+        // as glonaxd does: producers first, then the networks. The producer is up (and has handed out its
+        // CommandSender) before the networks are scheduled, and the script starts IMMEDIATELY after
+        // schedule_net_service returns: commands published before the command tasks have been polled
+        // for the first time must not be lost (the receiver exists from scheduling time on)
         runtime.schedule_io_sub_service::<Producer, NullConfig>(NullConfig);
-        for id in 0..nn { runtime.schedule_net_service::<Mock, MockCfg>(MockCfg { id, sh: sh2.clone() }, std::time::Duration::from_secs(3600)); }
         let settle = || async { for _ in 0..200 { tokio::task::yield_now().await; } };
         settle().await;
         let tx = sh2.tx.lock().unwrap().clone().expect("producer did not start");
+        for id in 0..nn { runtime.schedule_net_service::<Mock, MockCfg>(MockCfg { id, sh: sh2.clone() }, std::time::Duration::from_secs(3600)); }
         let mut i = 0usize;
         while i < ops.len() {
             match ops[i] {
